@@ -97,7 +97,8 @@ def checkKeys (cl : Key → String → String) (f : List Item × List Item → O
 /-- failure class on a BMP connection: a disagreement about a peer for which no PeerUp was ever
     written on this connection is reported as `unannounced-…` -/
 def wireCls (c : Case) (wctl : List (List Ev)) (key : Key) (clause : String) : String :=
-  if (wctl.getD key.peer []).isEmpty then "unannounced-" ++ clause else cls c key clause
+  if peerHasGr c key.peer then "purge-" ++ clause
+  else if (wctl.getD key.peer []).isEmpty then "unannounced-" ++ clause else clause
 
 /-- "Peer-down is reported only for peers whose peer-up was reported": in the stream the
     consumer forwards, every PeerDown(p) follows a PeerUp(p) not yet answered by a PeerDown(p). -/
@@ -122,11 +123,43 @@ def sessionOk : Bool → List Op → Bool
 
 def sessionsOk (c : Case) : Bool := c.threads.all fun t => sessionOk false t.2
 
+/-- Does the session task of this peer ever end a session or purge routes?  An MRT updates
+    dump has no record for a session end (`MrtDumper` writes BGP4MP UPDATE records only), so for
+    such a peer the dump says nothing about the current state. -/
+def peerEnds (c : Case) (p : Nat) : Bool :=
+  match c.threads[p]? with
+  | some (_, ops) => ops.any fun o => grOp o || o == .down
+  | none => false
+
+/-- One universe key of one MRT updates dump (no snapshot by design): if the dump has a record
+    for the key and the key's peer never ends a session, the last record is the current state. -/
+def checkMrtKeys (c : Case) :
+    Nat → List Key → List (List Item × List Item) → List (Option Nat × Option Nat) → Option (Nat × String)
+  | _, [], [], [] => none
+  | pos, k :: ks, h :: hs, r :: rs =>
+      match (if touched h.1 && !peerEnds c k.peer then cmp "mrt-pre" (held h.1) r.1 else none) with
+      | some cl => some (pos, cl)
+      | none => checkMrtKeys c (pos + 1) ks hs rs
+  | pos, _, _, _ => some (pos, "shape")
+
+/-- One universe key of one watch stream (one map was requested). -/
+def checkWatchKey (init post : Bool) (h : List Item × List Item) (rib : Option Nat × Option Nat) : Option String :=
+  let hh := if post then h.2 else h.1
+  let rr := if post then rib.2 else rib.1
+  let pfx := if post then "watch-post" else "watch-pre"
+  if init then cmp pfx (held hh) rr
+  else if touched hh then cmp ("nosnap-" ++ pfx) (held hh) rr else none
+
 def checkSub (c : Case) (u : List Key) (rib : List (Option Nat × Option Nat)) (s : SubObs) : Option (Nat × String) :=
-  if s.bmp then
+  if s.kind == 1 then
     if !(s.wctl.all fun l => downsFollowUps l []) then some (0, "bmp-peerdown-without-peerup")
     else if !sessionsOk c then none
     else checkKeys (wireCls c s.wctl) checkWireKey 0 u s.whist rib
+  else if s.kind == 2 then checkMrtKeys c 0 u s.whist rib
+  else if s.kind == 3 || s.kind == 4 then
+    if !(s.wctl.all fun l => downsFollowUps l []) then some (0, "watch-peerdown-without-peerup")
+    else if !sessionsOk c then none
+    else checkKeys (wireCls c s.wctl) (checkWatchKey s.want (s.kind == 4)) 0 u s.whist rib
   else if !downsFollowUps s.fwd [] then some (0, "peerdown-without-peerup")
   else if !s.live then none     -- an unsubscribed subscriber is promised nothing more
   else if s.want && !(s.ctl.contains .eos) then some (0, "no-end-of-snapshot")
